@@ -1,13 +1,115 @@
-(* C04 — Parsing depends only on the bytes, not on read chunking or position.  Statements only. *)
-From Coq Require Import List NArith ZArith Bool.
-From AdltV Require Import Base.Res Base.MachInt Reader.LowMark Exec.C04.
+(* C04 — Parsing depends only on the bytes, not on read chunking or position.
+   Statements only; proofs are in Reader/LowMarkProofs.v and Dlt/ChunkProofs.v.
+
+   Reader/LowMark.v models LowMarkBufReader over a scripted source = (bytes, read-size schedule); every
+   `Read` implementation that hands out its bytes in order is such a source (a scheduled size is clipped to
+   [1, room]; 0 only at the end).  Reader/LowMarkSpec.v judges a run from its events only
+   (operation, result, `buffer()` afterwards): [trace_ok data low P B evs].
+   Dlt/Chunk.v runs the iterator of Dlt/Iter.v (C01's model) over that reader. *)
+From Coq Require Import List NArith ZArith Bool Lia.
+From AdltV Require Import Base.Res Base.MachInt Dlt.Frame Dlt.Iter Reader.LowMark Reader.LowMarkSpec
+  Reader.LowMarkProofs Dlt.Chunk Dlt.ChunkProofs Exec.C04.
 Import ListNotations.
 Open Scope N_scope.
 
-(* what was wrong before the repair (commit bfc66da in /repo): with `copy_within(pos..cap, offset)` the bytes
-   buf[0..offset] keep old content although abs_pos claims them.  Capacity 3*4096, low mark 4096, source
-   byte i = i mod 251: consume 12188, refill, seek(Start(12187)) is accepted and the next byte read is
-   source[3995] = 230 instead of source[12187] = 139.  With the repaired compaction it is 139. *)
+(* ---- the reader alone: every source, schedule, admissible capacity, sequence of fill/consume/read/seek *)
+
+(* new() succeeds, no operation panics, and every event satisfies the client-level specification:
+   what is buffered is always the source's content at the logical position; fill_buf shows >= low_mark bytes or
+   all that is left; read returns the next bytes; an accepted seek moves the logical position to its target;
+   a seek into the buffered window is never refused *)
+Theorem C04_reader_refines_stream data sched capacity low ops :
+  0 < low -> low + 4096 <= capacity -> capacity <= usizemax -> nlen data <= usizemax ->
+  Forall (op_wf capacity) ops ->
+  exists r0 evs r', new_reader {| s_rest := data; s_sched := sched |} capacity low = Ok r0 /\
+                    run_now r0 ops = Ok (evs, r') /\ map e_op evs = ops /\
+                    trace_ok data low 0 0 evs /\ stream_pos r' = final_pos 0 0 evs.
+Proof. exact (reader_refines_stream data sched capacity low ops). Qed.
+
+(* without seeks: the bytes handed out (consumed parts of the windows shown + results of read) are exactly the
+   first [stream_pos] bytes of the source: each once, in order *)
+Theorem C04_delivered_once_in_order data sched capacity low ops :
+  0 < low -> low + 4096 <= capacity -> capacity <= usizemax -> nlen data <= usizemax ->
+  Forall (op_wf capacity) ops -> (forall o, In o ops -> is_seek o = false) ->
+  exists r0 evs r', new_reader {| s_rest := data; s_sched := sched |} capacity low = Ok r0 /\
+                    run_now r0 ops = Ok (evs, r') /\
+                    delivered [] evs = ntake (stream_pos r') data.
+Proof. exact (delivered_once_in_order data sched capacity low ops). Qed.
+
+Section Reachable.
+  Variables (data sched : list N) (capacity low : N) (r : reader).
+  Hypothesis Hu : capacity <= usizemax.
+  Hypothesis Hd : nlen data <= usizemax.
+  Hypothesis HR : Reachable data sched capacity low r.
+
+  (* after fill_buf: the slice is the source's content at the position, and it holds >= low_mark bytes unless
+     it holds everything that is left *)
+  Theorem C04_lookahead :
+    exists r', fill_buf_now r = Ok r' /\ Reachable data sched capacity low r' /\
+               stream_pos r' = stream_pos r /\ slice_of data (stream_pos r) (window r') /\
+               nlen (window r) <= nlen (window r') /\
+               (low <= nlen (window r') \/ stream_pos r + nlen (window r') = nlen data).
+  Proof. exact (reach_fill data sched capacity low r Hu Hd HR). Qed.
+
+  (* the empty slice / a read of 0 bytes only when every source byte has been passed *)
+  Theorem C04_no_early_eof r' :
+    fill_buf_now r = Ok r' -> window r' = [] -> stream_pos r = nlen data.
+  Proof. exact (reach_no_early_eof data sched capacity low r Hu Hd HR r'). Qed.
+
+  Theorem C04_read_exact k :
+    exists bs r', read compact r k = Ok (bs, r') /\ bs = ntake (nlen bs) (ndrop (stream_pos r) data) /\
+                  stream_pos r' = stream_pos r + nlen bs /\ nlen bs <= k /\
+                  N.min k (N.min low (nlen data - stream_pos r)) <= nlen bs.
+  Proof. exact (reach_read data sched capacity low r Hu Hd HR k). Qed.
+
+  (* seek(Start(n)): when accepted, the position is n, what is buffered is data[n..] and every following read
+     returns data[n..]; a target inside the buffered window is never refused *)
+  Theorem C04_seek_within_buffer n :
+    exists x r', seek_start compact r n = Ok (x, r') /\
+                 match x with
+                 | Some m => m = n /\ stream_pos r' = n /\ slice_of data n (window r') /\
+                             (forall k, exists bs r2, read compact r' k = Ok (bs, r2) /\
+                                                      bs = ntake (nlen bs) (ndrop n data) /\
+                                                      N.min k (N.min low (nlen data - n)) <= nlen bs)
+                 | None => ~ (0 < nlen (window r) /\ stream_pos r <= n <= stream_pos r + nlen (window r))
+                 end.
+  Proof. exact (reach_seek data sched capacity low r Hu Hd HR n). Qed.
+End Reachable.
+
+(* ---- the parsers: a result obtained with LOOKAHEAD = 65551 + 4 bytes in view is final *)
+Theorem C04_parse_stable idx d e :
+  wf_bytes d -> LOOKAHEAD <= blen d ->
+  parse_storage idx (d ++ e) = parse_storage idx d /\ parse_serial idx (d ++ e) = parse_serial idx d.
+Proof. intros H1 H2. split; [exact (parse_storage_stable idx d e H1 H2)|exact (parse_serial_stable idx d e H1 H2)]. Qed.
+
+(* ---- the iterator over the reader: for every byte stream, schedule, capacity and low mark >= LOOKAHEAD the
+   messages and the final counters / latches are those of the iterator over the whole buffer *)
+Theorem C04_iter_chunk_independent data sched capacity low start :
+  wf_bytes data -> LOOKAHEAD <= low -> low + 4096 <= capacity -> capacity <= usizemax ->
+  nlen data <= usizemax ->
+  iter_result (run_iter_rd start capacity low data sched) = iter_result (run_iter start data).
+Proof. exact (iter_chunk_independent data sched capacity low start). Qed.
+
+(* the same from every reader state (any buffer position / compaction history) and iterator state: only the
+   bytes from the logical position on matter *)
+Theorem C04_iter_independent_of_reader_state data (Hwf : wf_bytes data) fuel nfuel st r :
+  Inv data r -> LOOKAHEAD <= r_low r ->
+  iter_result (drain_rd fuel nfuel st r) = iter_result (drain_fuel fuel nfuel st (ndrop (stream_pos r) data)) /\
+  (forall ms st' r', drain_rd fuel nfuel st r = Ok (ms, st', r') ->
+     exists rest, drain_fuel fuel nfuel st (ndrop (stream_pos r) data) = Ok (ms, st', rest) /\
+                  rest = ndrop (stream_pos r') data /\ Inv data r').
+Proof. exact (drain_rd_cursor data Hwf fuel nfuel st r). Qed.
+
+Theorem C04_reachable_inv data sched capacity low r :
+  capacity <= usizemax -> nlen data <= usizemax ->
+  Reachable data sched capacity low r -> Inv data r /\ r_low r = low /\ nlen (r_buf r) = capacity.
+Proof. exact (reachable_inv data sched capacity low r). Qed.
+
+(* ---- witnesses of the two defects repaired in /repo *)
+
+(* (a) before commit bfc66da: `copy_within(pos..cap, offset)` left buf[0..offset] stale although abs_pos claimed
+   it.  Capacity 3*4096, low mark 4096, source byte i = i mod 251: consume 12188, refill, seek(Start(12187)) is
+   accepted and the next byte read is source[3995] = 230 instead of source[12187] = 139. *)
 Definition stale_witness (compact_fn : reader -> res reader) : list out :=
   match new_reader {| s_rest := expand [SRamp 0 1 20000]; s_sched := [] |} 12288 4096 with
   | Ok r => match run compact_fn r [OFill; OConsume 12188; OFill; OSeekStart 12187; ORead 1] with
@@ -22,4 +124,56 @@ Theorem C04_seek_stale_before_fix :
   nth 3995 (expand [SRamp 0 1 20000]) 0 = 230 /\ nth 12187 (expand [SRamp 0 1 20000]) 0 = 139.
 Proof. vm_compute. auto. Qed.
 
+(* (b) before commit 5647f17 the call sites used low mark = 65551 = one maximum frame < LOOKAHEAD.  A maximum
+   frame with an embedded frame (ending where the outer one ends), 8 garbage bytes and a small frame: under the
+   schedule [65551, rest] the outer frame is accepted (payload 65531); with everything in view the parser
+   resynchronises on the embedded one (payload 65411).  With low mark = LOOKAHEAD both agree. *)
+Definition max_frame_witness : list N :=
+  expand [SLit [68; 76; 84; 1; 0; 0; 0; 0; 0; 0; 0; 0; 69; 67; 85; 49; 32; 0; 255; 255];
+          SRep 65 100;
+          SLit [68; 76; 84; 1; 1; 0; 0; 0; 2; 0; 0; 0; 69; 67; 85; 57; 32; 7; 255; 135];
+          SRep 66 65411;
+          SLit [1; 2; 3; 4; 5; 6; 7; 8];
+          SLit [68; 76; 84; 1; 0; 0; 0; 0; 0; 0; 0; 0; 69; 67; 85; 50; 32; 1; 0; 9; 9; 9; 9; 9; 9]].
+Definition payload_sizes {R} (x : res (list msg * ist * R)) : option (list N) :=
+  match x with Ok (ms, _, _) => Some (map (fun m => nlen (m_payload m)) ms) | _ => None end.
+Theorem C04_chunk_dependence_below_lookahead :
+  wf_bytesb max_frame_witness = true /\
+  payload_sizes (run_iter_rd 0 (65551 + 4096) 65551 max_frame_witness [65551]) = Some [65531; 5] /\
+  payload_sizes (run_iter 0 max_frame_witness) = Some [65411; 5] /\
+  payload_sizes (run_iter_rd 0 (LOOKAHEAD + 4096) LOOKAHEAD max_frame_witness [65551]) = Some [65411; 5].
+Proof. vm_compute. auto. Qed.
+
+(* ---- non-vacuity: a concrete source with short reads, several compactions, a backward and a forward seek
+   satisfies the hypotheses of C04_reader_refines_stream, and the run really compacts (abs_pos > 0) *)
+Example C04_nonvacuous :
+  let data := expand [SRamp 3 7 30000] in
+  let ops := [OFill; OConsume 5000; ORead 300; OFill; OSeekCur (zn 200); ORead 16; OConsume 9000; OFill;
+              OSeekStart 14200; ORead 5; OConsume 20000; OFill; ORead 7] in
+  0 < 4096 /\ 4096 + 4096 <= 8292 /\ 8292 <= usizemax /\ nlen data <= usizemax /\ Forall (op_wf 8292) ops /\
+  match new_reader {| s_rest := data; s_sched := [1; 2; 3; 5000; 1; 100] |} 8292 4096 with
+  | Ok r0 => match run_now r0 ops with
+             | Ok (evs, r') => 4096 < r_abs r' /\ stream_pos r' = 21697 /\ length evs = 13%nat
+             | _ => False
+             end
+  | _ => False
+  end.
+Proof.
+  cbv zeta. split; [lia|]. split; [lia|]. split; [vm_compute; discriminate|]. split; [vm_compute; discriminate|].
+  split; [repeat constructor; vm_compute; discriminate|].
+  vm_compute. split; [reflexivity|]. split; reflexivity.
+Qed.
+
+Print Assumptions C04_reader_refines_stream.
+Print Assumptions C04_delivered_once_in_order.
+Print Assumptions C04_lookahead.
+Print Assumptions C04_no_early_eof.
+Print Assumptions C04_read_exact.
+Print Assumptions C04_seek_within_buffer.
+Print Assumptions C04_parse_stable.
+Print Assumptions C04_iter_chunk_independent.
+Print Assumptions C04_iter_independent_of_reader_state.
+Print Assumptions C04_reachable_inv.
 Print Assumptions C04_seek_stale_before_fix.
+Print Assumptions C04_chunk_dependence_below_lookahead.
+Print Assumptions C04_nonvacuous.
